@@ -453,6 +453,9 @@ def _make_dict_structure_fn(
             if nrb is not NOTHING:
                 t = nrb
 
+            if is_generic(t) and not is_bare(t) and not is_annotated(t):
+                t = deep_copy_with(t, mapping, cl)
+
             if override.struct_hook is not None:
                 handler = override.struct_hook
             else:
